@@ -281,6 +281,10 @@ class QintImp(int, Qtype):
     @classmethod
     def sub(cls, tleft: TExp, tright: TExp) -> TExp:
         """Subtract two Qint"""
+        if len(tleft[1]) < len(tright[1]):
+            # widen the left operand before complementing it, otherwise the zero-extension
+            # happens after the bitwise not and the high bits of the result are wrong
+            tleft = tright[0].fill(tleft)
         an = cls.bitwise_not(cls.fill(tleft))
         su = cls.add(an, cls.fill(tright))
         return cls.bitwise_not(su)
